@@ -12,12 +12,15 @@ THEOREMS = ['T4Spec.error_eq_value_times_sigma', 'T4Spec.energy_bins_increasing'
             'T4Spec.orient_edges', 'T4Spec.orient_cells', 'T4Spec.decreasing_iff', 'T4Spec.convert_energy_axis', 'T4Spec.convert_single', 'T4Spec.fillRows_single']
 BUDGET = {'quick': 700, 'thorough': 12000}
 TIME_LIMIT = {'quick': 58, 'thorough': 1200}
-RULE = ('three streams. (unit, 70%) token lists as the grammar hands them to the builders: 1-6 energy groups, optional time steps / '
+RULE = ('five streams. (unit, 70%) token lists as the grammar hands them to the builders: 1-6 energy groups, optional time steps / '
         'mu zones / phi zones (1-3 each), every axis printed increasing or decreasing, scores of either sign, zeros, sigma in '
         '[0, 100], with / without energy-integrated results, sometimes non-contiguous groups -> common.convert_spectrum + '
-        'data_convertor.convert_data vs the model, bit for bit. (listing, 22%) the shipped listings with every number of every '
+        'data_convertor.convert_data vs the model, bit for bit. (listing, 16%) the shipped listings with every number of every '
         'spectrum line re-rendered (%e) from fresh ground truth, parsed end to end: the (group bounds, score, sigma) found in '
-        'the datasets, grouped per scoring zone, must be exactly those printed. (apollo3, 8%) the shipped HDF5 files with every '
+        'the datasets, grouped per scoring zone, must be exactly those printed. (editions, 5%) one Parser object asked for '
+        '2-6 editions of a multi-edition listing by number and by index in any order: each answer is what a new Parser gives '
+        'for that edition. (a3synth, 5%) small synthetic HDF5 files in the standard Apollo3 layout (1-2 outputs of 1-5 groups, '
+        '1-3 zones, 0-3 isotopes): Reader and Picker return every stored array with its shape and group bins. (apollo3, 4%) the shipped HDF5 files with every '
         'float dataset replaced by x -> 2x+1: Reader.to_browser() vs Picker.pick_standard_value for every stored result, and '
         'against the transformed original; non-trivial = a decreasing axis, several axes, or an end-to-end case; distinct = case hash')
 CORRESPONDS = ('Model/T4Spec.lean (nbBins, fill, addLast, decreasing/flip, convert, errorOf) vs valjean.eponine.tripoli4.common.'
@@ -57,6 +60,35 @@ def hdf_files():
     root = repo()
     return [os.path.relpath(p, root) for p in sorted(glob.glob(os.path.join(root, 'tests/eponine/apollo3/data/*.hdf')))
             if os.path.getsize(p) < 150000]
+
+
+_MULTI = []
+
+
+def multi_edition_listings():
+    """shipped listings (below 400 kB) holding at least two editions, with their batch numbers"""
+    if not _MULTI:
+        import logging
+        logging.disable(logging.CRITICAL)
+        from valjean.eponine.tripoli4.parse import Parser
+        root = repo()
+        try:
+            for path in sorted(glob.glob(os.path.join(root, 'tests/eponine/tripoli4/data/*.res*'))
+                               + glob.glob(os.path.join(root, 'doc/src/examples/notebooks/*/*.res*'))):
+                if os.path.getsize(path) > 400000:
+                    continue
+                with open(path, 'rb') as fobj:
+                    if fobj.read().count(b'RESULTS ARE GIVEN') < 2:
+                        continue
+                try:
+                    numbers = [int(k) for k in Parser(path).scan_res.keys()]
+                except Exception:  # pylint: disable=broad-except
+                    continue
+                if len(numbers) >= 2:
+                    _MULTI.append((os.path.relpath(path, root), numbers))
+        finally:
+            logging.disable(logging.NOTSET)
+    return _MULTI
 
 
 def axis(rng, n, decreasing, energy=False):
@@ -112,9 +144,21 @@ def gen(rng, tier, run):
         if rng.random() < 0.04 and len(blocks) > 1:   # a sub-spectrum with one more group than the first
             blocks[-1]['rows'].append(list(blocks[-1]['rows'][-1]))
         return {'mode': 'unit', 'blocks': blocks}
-    if r < 0.92:
+    if r < 0.86:
         names = listings()
         return {'mode': 'listing', 'file': rng.choice(names), 'seed': rng.randrange(1 << 30)}
+    if r < 0.91:
+        # several editions asked from ONE Parser object, by number and by index, in any order
+        name, numbers = rng.choice(multi_edition_listings())
+        acc = []
+        for _ in range(rng.randrange(2, 7)):
+            if rng.random() < 0.5:
+                acc.append(['number', rng.choice(numbers)])
+            else:
+                acc.append(['index', rng.choice(list(range(len(numbers))) + [-1])])
+        return {'mode': 'editions', 'file': name, 'accesses': acc}
+    if r < 0.96:
+        return {'mode': 'a3synth', 'seed': rng.randrange(1 << 30)}
     return {'mode': 'apollo3', 'file': rng.choice(hdf_files()), 'seed': rng.randrange(1 << 30)}
 
 
@@ -365,6 +409,151 @@ def run_apollo3(case):
     return out
 
 
+_REF = {}
+
+
+def run_editions(case):
+    """one Parser object asked for several editions in a row: each answer is the one a fresh Parser gives for that edition"""
+    import logging
+    logging.disable(logging.CRITICAL)
+    from valjean.eponine.tripoli4.parse import Parser
+    from props.c11 import canon
+    out = {'wrong': [], 'n': 0}
+    try:
+        path = os.path.join(repo(), case['file'])
+        numbers = dict(multi_edition_listings())[case['file']]
+
+        def reference(number):
+            key = (case['file'], number)
+            if key not in _REF:
+                pres = Parser(path).parse_from_number(number)
+                _REF[key] = (canon(pres.pres), canon(pres.res.get('list_responses')), pres.res.get('edition_batch_number'))
+            return _REF[key]
+        parser = Parser(path)
+        for how, arg in case['accesses']:
+            number = arg if how == 'number' else numbers[arg]
+            pres = parser.parse_from_number(arg) if how == 'number' else parser.parse_from_index(arg)
+            got = (canon(pres.pres), canon(pres.res.get('list_responses')), pres.res.get('edition_batch_number'))
+            ref = reference(number)
+            out['n'] += 1
+            if ref[2] is not None and ref[2] != number:
+                out['wrong'].append(f'a fresh Parser asked for edition {number} returns edition {ref[2]}')
+            if got != ref:
+                out['wrong'].append(f'parse_from_{how}({arg}) after {case["accesses"][:out["n"] - 1]} on the same Parser: not the '
+                                    f'result of edition {number} (edition_batch_number {got[2]})')
+        out['outcome'] = 'ok'
+    except Exception as exc:  # pylint: disable=broad-except
+        out['outcome'] = f'{type(exc).__name__}: {exc}'[:200]
+    finally:
+        logging.disable(logging.NOTSET)
+    return out
+
+
+def build_a3(path, rng):
+    """a small file in the standard Apollo3 rates layout (docstring of hdf5_reader); returns what was stored"""
+    import h5py
+    import numpy as np
+    truth = {}
+    with h5py.File(path, 'w') as hfile:
+        nout = rng.choice([1, 2])
+        info = hfile.create_group('info')
+        info['NOUT'] = np.array([nout], dtype='i4')
+        geom = hfile.create_group('geometry')
+        geom['NGEO'] = np.array([1], dtype='i4')
+        geo = geom.create_group('geometry_0')
+        zones = rng.sample(['fuel', 'mod', 'clad', 'gap', 'refl'], rng.randrange(1, 4))
+        geo['NZONE'] = np.array([len(zones)], dtype='i4')
+        geo['VOLUME'] = np.array([rng.uniform(0.5, 3) for _ in zones], dtype='f4')
+        width = max(len(z) for z in zones)
+        geo['ZONENAME'] = np.array([z.encode().ljust(width) for z in zones], dtype=f'S{width}')
+        for iout in range(nout):
+            ngr = rng.choice([1, 1, 2, 3, 5])
+            oname = f'output_{iout}'
+            oinfo = info.create_group(oname)
+            oinfo['GEOMID'] = np.array([b'geometry_0'], dtype='S10')
+            oinfo['NG'] = np.array([ngr], dtype='i4')
+            out = hfile.create_group(oname)
+            tot = out.create_group('totaloutput')
+            tot['KEFF'] = np.array([rng.uniform(0.8, 1.2)], dtype='f8')
+            truth[(oname, 'totaloutput', None, 'KEFF')] = tot['KEFF'][...][0]
+            if rng.random() < 0.7:
+                arr = np.array([rng.uniform(1, 9) for _ in range(ngr)], dtype='f8')
+                tot['FLUX'] = arr
+                truth[(oname, 'totaloutput', None, 'FLUX')] = arr
+            for zone in zones:
+                zgrp = out.create_group(zone)
+                isos = rng.sample(['U235', 'U238', 'O16', 'H1'], rng.randrange(0, 4))
+                zgrp['NISOT'] = np.array([len(isos)], dtype='i4')
+                if isos:
+                    zgrp['ISOTOPE'] = np.array([i.encode().ljust(8) for i in isos], dtype='S8')
+                    conc = np.array([rng.uniform(0, 1) for _ in isos], dtype='f8')
+                    zgrp['CONCEN'] = conc
+                    for iso, val in zip(isos, conc):
+                        truth[(oname, zone, iso, 'concentration')] = val
+                arr = np.array([rng.uniform(1, 9) for _ in range(ngr)], dtype=rng.choice(['f4', 'f8']))
+                zgrp['FLUX'] = arr
+                truth[(oname, zone, None, 'FLUX')] = arr
+                for iso in isos + ['macro']:
+                    igrp = zgrp.create_group(iso)
+                    for reac in rng.sample(['Absorption', 'Fission', 'NuFission', 'Total'], rng.randrange(1, 4)):
+                        arr = np.array([rng.uniform(0, 2) for _ in range(ngr)], dtype='f8')
+                        igrp[reac] = arr
+                        truth[(oname, zone, iso, reac)] = arr
+    return truth
+
+
+def run_a3synth(case):
+    import logging
+    import random
+    import numpy as np
+    logging.disable(logging.CRITICAL)
+    from valjean.eponine.apollo3.hdf5_reader import Reader
+    from valjean.eponine.apollo3.hdf5_picker import Picker
+    out = {'reader_bad': [], 'picker_bad': [], 'n': 0}
+    try:
+        with tempfile.TemporaryDirectory() as tmp:
+            path = os.path.join(tmp, 'synthetic.hdf')
+            truth = build_a3(path, random.Random(case['seed']))
+
+            def same(dset, stored):
+                if np.ndim(stored) == 0:
+                    return np.shape(dset.value) == () and float(dset.value) == float(stored) and not dset.bins
+                return (np.shape(dset.value) == np.shape(stored) and np.array_equal(np.asarray(dset.value), stored)
+                        and list(dset.bins) == ['groups']
+                        and np.array_equal(np.asarray(dset.bins['groups']), np.arange(len(stored))))
+            seen = set()
+            for item in Reader(path).to_browser().content:
+                key = (item.get('output'), item.get('zone'), item.get('isotope'), str(item.get('result_name')).lower())
+                match = [k for k in truth if (k[0], k[1], k[2], k[3].lower()) == key]
+                if not match:
+                    out['reader_bad'].append(f'{key}: not stored in the file')
+                    continue
+                seen.add(match[0])
+                out['n'] += 1
+                if not same(item['results'], truth[match[0]]):
+                    out['reader_bad'].append(f"{key}: Reader gives shape {np.shape(item['results'].value)} bins "
+                                             f"{list(item['results'].bins)} for the stored array of shape {np.shape(truth[match[0]])}")
+            for key in truth:
+                if key not in seen:
+                    out['reader_bad'].append(f'{key}: stored but absent from the Reader browser')
+            picker = Picker(path)
+            for (oname, zone, iso, name), stored in truth.items():
+                kwargs = {'output': oname, 'zone': zone, 'result_name': name}
+                if iso is not None:
+                    kwargs['isotope'] = iso
+                picked = picker.pick_standard_value(**kwargs)
+                if not same(picked, stored):
+                    out['picker_bad'].append(f'{(oname, zone, iso, name)}: Picker gives shape {np.shape(picked.value)} bins '
+                                             f'{list(picked.bins)} for the stored array of shape {np.shape(stored)}')
+            picker.close()
+        out['outcome'] = 'ok'
+    except Exception as exc:  # pylint: disable=broad-except
+        out['outcome'] = f'{type(exc).__name__}: {exc}'[:200]
+    finally:
+        logging.disable(logging.NOTSET)
+    return out
+
+
 def run_impl(case, run):
     import warnings
     warnings.simplefilter('ignore')
@@ -372,6 +561,10 @@ def run_impl(case, run):
         return run_unit(case)
     if case['mode'] == 'listing':
         return run_listing(case)
+    if case['mode'] == 'editions':
+        return run_editions(case)
+    if case['mode'] == 'a3synth':
+        return run_a3synth(case)
     return run_apollo3(case)
 
 
@@ -474,6 +667,20 @@ def oracle(case, impl, run):
                               f'the content of any dataset'))
                 break
             unmatched.remove(hit)
+        return fails
+    if case['mode'] == 'editions':
+        if impl.get('outcome') != 'ok':
+            fails.append(('no_exception', f"{case['file']}: {impl.get('outcome')}"))
+        for why in impl.get('wrong', [])[:3]:
+            fails.append(('requested_edition', f"{case['file']}: {why}"))
+        return fails
+    if case['mode'] == 'a3synth':
+        if impl.get('outcome') != 'ok':
+            fails.append(('no_exception', f"synthetic Apollo3 file (seed {case['seed']}): {impl.get('outcome')}"))
+        for why in impl.get('reader_bad', [])[:3]:
+            fails.append(('stored_array_returned', f"synthetic Apollo3 file (seed {case['seed']}): {why}"))
+        for why in impl.get('picker_bad', [])[:3]:
+            fails.append(('picker_eq_reader', f"synthetic Apollo3 file (seed {case['seed']}): {why}"))
         return fails
     run.count(f"apollo3 picked={min(impl['picked'], 1) and 'some'}")
     for key in impl['reader_vs_picker'][:3]:
